@@ -133,7 +133,22 @@ def tlc(module, cfg=None, workers="auto", simulate=None, depth=None, seed=None,
         res.rc = p.returncode
         out = p.stdout
         res.out = out if keep_out else out[-20000:]
-        for line in out.splitlines():
+        lines = out.splitlines()
+        # TLC's pretty printer may break a long tuple over two lines:  << "TAG",\n   "json" >>
+        joined = []
+        k = 0
+        while k < len(lines):
+            ln = lines[k]
+            m2 = re.match(r'^<< "([A-Z]+)",$', ln)
+            if m2 and k + 1 < len(lines):
+                nxt = lines[k + 1].strip()
+                if nxt.startswith('"') and nxt.endswith('>>'):
+                    joined.append('<<"%s", %s>>' % (m2.group(1), nxt[:-2].rstrip()))
+                    k += 2
+                    continue
+            joined.append(ln)
+            k += 1
+        for line in joined:
             m = _PRINT_RE.match(line)
             if m and m.group(1) in tags:
                 try:
